@@ -46,14 +46,43 @@ class PGateway:
         self.loop.settle()
         return True
 
-    def stop(self):
-        if self.flavour == "sync":
-            self.gw.stop()
-        else:
-            self.loop.run_until_complete(self.gw.stop())
-            self.loop.settle()
-        for t in FAKE_THREADING.live():
-            t.cancel()
+    def stop(self, late_line=None):
+        """stop(); with late_line, the device sends one more line right after a save completes during stop(),
+        delivered only if the transport has not been closed by then (a closed link delivers nothing)."""
+        undo = None
+        fed = []
+        if late_line is not None:
+            from mysensors.persistence import Persistence
+
+            orig = Persistence.save_sensors
+            eng = self.eng
+
+            def save_sensors(pself):
+                r = orig(pself)
+                if not fed and getattr(eng.t, "disconnected", 1) == 0:
+                    fed.append(late_line)
+                    try:
+                        eng.feed(late_line)
+                    except Exception:
+                        pass
+                return r
+
+            Persistence.save_sensors = save_sensors
+
+            def undo():
+                Persistence.save_sensors = orig
+        try:
+            if self.flavour == "sync":
+                self.gw.stop()
+            else:
+                self.loop.run_until_complete(self.gw.stop())
+                self.loop.settle()
+        finally:
+            if undo:
+                undo()
+            for t in FAKE_THREADING.live():
+                t.cancel()
+        return bool(fed)
 
     def close(self):
         if self.loop is not None:
@@ -113,8 +142,23 @@ def run_persist_history(cfg, steps, path):
                     out["ticks"] += 1
             elif k in ("restart", "stop"):
                 before = projection(pg.gw.sensors)
+                late = st[1] if len(st) > 1 else None
+                n0 = len(pg.eng.sent)
+                known = set(pg.gw.sensors)
                 try:
-                    pg.stop()
+                    if pg.stop(late):
+                        out["late_lines_delivered"] = out.get("late_lines_delivered", 0) + 1
+                    # what the gateway held when it stopped
+                    before = projection(pg.gw.sensors)
+                    for (_s, _o, line) in pg.eng.sent[n0:]:
+                        f = parse_canon(line)
+                        if f and f[2:5] == [3, 0, 4]:
+                            try:
+                                nid = int(f[5])
+                            except ValueError:
+                                nid = f[5]
+                            out["idresp"].append((sorted(known), sorted(handed), nid, out["lifetimes"], idx))
+                            handed.add(nid)
                 except Exception as exc:     # judged by the caller: a stop() that raises has not saved
                     out["stop_errors"].append((idx, exc))
                     for t in FAKE_THREADING.live():
